@@ -150,12 +150,23 @@ def main():
                         ctx.violation("dual_nodal_values:DUAL1", "%s: basis function %d takes the value %.4f at barycentric node %d, documented value %.4f" % (cid, j, got[v, j], v, expected[v, j]), cid)
                     if multi > 1e-12:
                         ctx.violation("dual_nodal_values:DUAL1:discontinuous", "%s: a DUAL1 basis function is discontinuous on the barycentric grid (jump %.3e)" % (cid, multi), cid)
-        for vi in range(nvar):
+        # variant 0: whole grid; variants 1-4: one segment selection under all four include_boundary_dofs x
+        # truncate_at_segment_edge combinations (each decides a different set of barycentric elements); then random draws
+        doms_ = sorted(set(mesh.D.tolist()))
+        rs_ = ctx.rng(mname, "dual0_segments")
+        seg_ = sorted(int(x) for x in rs_.choice(doms_, size=int(rs_.integers(1, len(doms_))), replace=False)) if len(doms_) >= 2 else None
+        combos_ = [(True, False), (True, True), (False, False), (False, True)] if seg_ else []
+        for vi in range(1 + len(combos_) + (nvar - 1)):
             cid = "%s:nodal:DUAL0:v%d" % (mname, vi)
             if not ctx.want(cid):
                 continue
             rng = ctx.rng(cid)
-            opts = draw("DUAL0", vi, rng) if vi else ({} if closed else {"include_boundary_dofs": True})
+            if vi == 0:
+                opts = {} if closed else {"include_boundary_dofs": True}
+            elif vi <= len(combos_):
+                opts = {"segments": list(seg_), "include_boundary_dofs": combos_[vi - 1][0], "truncate_at_segment_edge": combos_[vi - 1][1]}
+            else:
+                opts = draw("DUAL0", vi - len(combos_), rng)
             with ctx.guard(cid, "dual_nodal_values:DUAL0", allow=S.ALLOWED_REJECTIONS):
                 exp = S.expected_entities(topo, mesh.D, "DUAL", 0, opts)
                 if exp is None or not exp[1]:
